@@ -7,7 +7,7 @@
    motion p -> g.p + t, R -> g*R to every path entry. *)
 From Coq Require Import ZArith List Bool Lia.
 From MV Require Import Lib.Rigid Lib.OctZ Lib.ListIdx Model.Level2Model Model.Level2Move
-  Model.Level2Exec Proofs.Level2C03.
+  Model.Level2Exec Gen.GenLevel1 Proofs.Level2C03.
 From MV Require Lib.RigidR3.
 Import ListNotations.
 
@@ -18,6 +18,11 @@ Context {O : RigidOps} {L : RigidLaws O}.
 Theorem C03_level1_frame : forall (P : Type) (F : nat -> P -> V -> V) (k : nat) (p : V) (r : G) (o : V) (pr : P),
   level1 P F k p r o pr = act r (F k pr (act (ginv r) (vsub o p))).
 Proof. exact level1_frame. Qed.
+
+(* getBH_level1 re-translated from /repo on every run (translate/gen_level1.py, fail-closed) IS that row function *)
+Theorem C03_translated_level1_is_model : forall (P : Type) (F : nat -> P -> V -> V) (k : nat) (p : V) (r : G) (o : V) (pr : P),
+  gen_level1 P F k p r o pr = level1 P F k p r o pr.
+Proof. exact gen_level1_is_model. Qed.
 
 Theorem C03_level1_local_frame : forall (P : Type) (F : nat -> P -> V -> V) (k : nat) (p : V) (r : G) (x : V) (pr : P),
   level1 P F k p r (vadd (act r x) p) pr = act r (F k pr x).
@@ -63,6 +68,7 @@ Proof. exact spec_invariant. Qed.
 End AnyRigidAlgebra.
 
 Print Assumptions C03_level1_frame.
+Print Assumptions C03_translated_level1_is_model.
 Print Assumptions C03_level1_local_frame.
 Print Assumptions C03_level1_covariant.
 Print Assumptions C03_level2_covariant.
